@@ -104,6 +104,7 @@ fn main() {
             engines::e1::run_c12_graphs(&a, &shared);
         }
         "C13" => engines::e1::run_c13(&a, &shared),
+        "C04" => engines::e4::run_c04(&a, &shared),
         "C06" => engines::e3::run_c06(&a, &shared),
         "C07" => engines::e3::run_c07(&a, &shared),
         "C09" => engines::e3::run_c09(&a, &shared),
